@@ -70,3 +70,19 @@ Theorem C07_translated_classifier_only_wellformed :
     /\ is_panic (gen_nonce_from_request (d ++ rest) (lenN d) srv) = false.
 Proof. intros srv d rest. rewrite gen_nonce_from_request_model. apply C07_only_wellformed. Qed.
 Print Assumptions C07_translated_classifier_only_wellformed.
+
+(* ---- Server::collect_requests itself, translated from src/server.rs on this run: the socket is
+   the queue of waiting datagrams, the statistics recorder the list of recorded events. It reads at
+   most batch_size datagrams, classifies each with the translated nonce_from_request, queues the
+   accepted ones on the responder of their protocol, records exactly one event per datagram and
+   reports an empty socket exactly when fewer than batch_size were waiting — the model's `collect`
+   on the datagrams read (the stale tail of the receive buffer is not compared) ---- *)
+Require RV.Proofs.CodeServer.
+Theorem C07_translated_collect_is_model :
+  forall H srv cfg n q buf ri rc st i,
+  RV.Proofs.CodeServer.omap (fun '(b, (q', _, ri', rc', st')) => (b, q', ri', rc', st'))
+       (gen_collect_requests H (N.of_nat n) q buf srv ri rc st)
+  = obind (collect H srv cfg ri rc (firstn n q) i) (fun '(ri', rc', sts, _) =>
+      Ok ((length q <? n)%nat, skipn n q, ri', rc', st ++ sts)).
+Proof. exact RV.Proofs.CodeServer.gen_collect_requests_model. Qed.
+Print Assumptions C07_translated_collect_is_model.
